@@ -247,3 +247,20 @@ def c08(prop, tier, seed, wd, explore, limit, kinds, we):
     def nt(case, cnt):
         return len(case.S) >= 2 and cnt.get("eval.save", 0) >= 3
     return dict_check(prop, tier, seed, wd, explore, limit, kinds, we, cases, RULE_BASE + "; three saves with queries and an open iterator in between", nontrivial=nt)
+
+@register("C07")
+def c07(prop, tier, seed, wd, explore, limit, kinds, we):
+    # full object life cycle through every API + forced buffer growth
+    cases = P.basic_cases(prop, seed, tier, ops=(), states=("fresh", "own", "gen", "resaved", "concat"), per_input_states=2)
+    for c in list(cases):
+        pass
+    grow = []
+    for ii, (iname, S) in enumerate(P.input_sets(prop, seed, tier, n_random=30 if tier == "quick" else 200)):
+        for kind in ("PFC", "RPFC", "HTFC", "HHTFC", "RPHTFC", "HASHHF"):
+            r = P.rng_for(seed, prop, 50000 + ii * 10 + KINDS.index(kind))
+            p = P.param_vectors(kind, r, S, 1)[0]
+            grow.append(Case(kind, p, iname, S, r.choice(["fresh", "own"]), P.opt_for(kind, r), ("locate", "extract", "extractTable"), memalloc=r.choice([1, 2, 3, 16, 64, 1024]), seed=seed))
+    cases += grow
+    def nt(case, cnt):
+        return len(case.S) >= 2
+    return dict_check(prop, tier, seed, wd, explore, limit, kinds, we, cases, RULE_BASE + "; every public operation incl. unsupported ones, save, both loaders, destruction; plus MEMALLOC override cases that force Reallocate", nontrivial=nt)
